@@ -111,6 +111,16 @@ CLAIMED: dict[str, tuple[str, str, str, str]] = {
             "Language-support table taken from the linter docs; a shebang inside a file WITH an unknown "
             "extension is not specified and not generated.",
             TECH),
+    "C13": ("DESIGN.md §5 C13",
+            "spec/Edits.tla enumerates edit sequences (blank/comment insertion at four positions, trailing "
+            "whitespace, re-indentation, CRLF, BOM, appended unrelated code; length <=2) and defines the shift "
+            "function, whose monotonicity/boundedness/identity laws TLC checks over all concrete positions; every "
+            "sequence is applied to 23 linter x language bases (incl. SRP size-boundary classes), all rules are "
+            "linted before/after and EditsTrace.tla computes Expected(base, edits) (Lost / Gained / WrongShift / "
+            "CountChanged); a Python mirror is used for diagnosis keys only and cross-checked.",
+            "Identifier renaming is not modelled; probe files contain no multi-line strings; file-level findings "
+            "do not shift; header-sensitive linters get no insertion at the top.",
+            TECH),
 }
 
 REASON_NOT_YET = ("no check registered yet in this build; the TLA+ technique applies (see DESIGN.md §5) "
